@@ -20,6 +20,7 @@ import (
 var (
 	errForbiddenLocalpart = errors.New("localpart contains forbidden characters")
 	errInvalidDomainLen   = errors.New("the domainpart must be between 1 and 1023 bytes")
+	errTrailingDot        = errors.New("the domainpart must not end with an empty label")
 	errInvalidUTF8        = errors.New("jID contains invalid UTF-8")
 	errLongLocalpart      = errors.New("the localpart must be smaller than 1024 bytes")
 	errLongResourcepart   = errors.New("the resourcepart must be smaller than 1024 bytes")
@@ -456,6 +457,14 @@ func normalizeDomainpart(domainpart string) (string, error) {
 
 	if l := len(domainpart); l < 1 || l > 1023 {
 		return domainpart, errInvalidDomainLen
+	}
+
+	// Only a single final dot is stripped above, and the IDNA mapping turns the
+	// other label separators (eg. U+3002) into dots. If the result still ends
+	// with a dot it would be stripped the next time the JID is parsed, so the
+	// JID would not be in canonical form.
+	if strings.HasSuffix(domainpart, ".") {
+		return domainpart, errTrailingDot
 	}
 
 	return domainpart, nil
